@@ -9,6 +9,7 @@
 //  file LICENSE_1_0.txt or copy at http://www.boost.org/LICENSE_1_0.txt)
 
 #include <pika/config.hpp>
+#include <pika/config/verif_hooks.hpp>
 #include <pika/assert.hpp>
 #include <pika/coroutines/detail/sigaltstack_sigsegv_handler.hpp>
 #include <pika/execution_base/this_thread.hpp>
@@ -880,6 +881,7 @@ namespace pika::threads::detail {
     {
         pika::util::yield_while(
             []() {
+                PIKA_VERIF_POINT(::pika::verif::tm_wait_pred);
                 return pika::threads::detail::get_global_activity_count() >
                     (threads::detail::get_self_ptr() != nullptr ? 1 : 0);
             },
